@@ -15,7 +15,7 @@ open SimF (FT FnInfo FTInj paramScope bigScope lookupD)
     machine stops at one of its limits (stack height / number of frames at a call), which the semantics does not have -/
 theorem top_program8 (p : RBlock) (D : List (Nat × FnInfo)) (Γ' : Gam) (hy : ZTop8 [] p 0 [] D Γ')
     (hnd : D.Pairwise (fun x y => x.1 ≠ y.1)) (bc : Bytecode) (hc : compileR p = .ok bc) (F : Nat) :
-    (∃ n s', ∀ k, runSteps bc.code (n + k) (VM.start {} bc) = .error .index s') ∨
+    HitsLimit bc ∨
     match evalB F p {} with
     | .val () st' => ∃ mv n s', (∀ k, runSteps bc.code (n + k) (VM.start {} bc) = .value mv s') ∧
         s'.mem.heap.tree treeDepth [] mv = st'.tree treeDepth [] st'.last ∧ s'.out = st'.out ∧
@@ -61,10 +61,10 @@ theorem top_program8 (p : RBlock) (D : List (Nat × FnInfo)) (Γ' : Gam) (hy : Z
     rw [hstart]; exact TI.start_wt {} bc TI.wt_empty
   have hsim := ptop8 hW hy hD (by simp [GamOK]) F (fun _ => none) {} #[] .null (VM.start {} bc).mem [] hinv0 hwt0 h1 hext
   rcases hsim with hov | hsim
-  · obtain ⟨n, s1, s2, hn, hs⟩ := hov
+  · obtain ⟨n, s1, hn, hl⟩ := hov
     simp only [Cfg.vm] at hn
     rw [hstart] at hn
-    exact .inl ⟨n + 1, s2, fun k => run_error bc.code n _ s1 .index s2 hn hs k⟩
+    exact .inl ⟨n, s1, hn, hl⟩
   refine .inr ?_
   cases hr : evalB F p {} with
   | val u st' =>
